@@ -235,12 +235,12 @@ Print Assumptions C01_regenerated_numeric_trees_codec_in_the_loop.
    Go's zero value (nil, 0: the state g_init / Api.init every history starts from) and does nothing else; every kind of
    tree has one *)
 From GoArt Require Import Proofs.BindingFacts.
-From GoArt Require Proofs.TranslateApiFacts.
+From GoArt Require Proofs.TranslateApiBase.
 From GoArt Require Gen.Bindings.
 From Coq Require Import String.
 Local Open Scope string_scope.
 Theorem C01_regenerated_alpha_codec :
-  (forall k, Bindings.g_alpha_transform k = alpha_tr k) /\ (forall b, Bindings.g_alpha_restore b = TranslateApiFacts.alpha_rs b).
+  (forall k, Bindings.g_alpha_transform k = alpha_tr k) /\ (forall b, Bindings.g_alpha_restore b = TranslateApiBase.alpha_rs b).
 Proof. exact (conj gen_alpha_transform_eq gen_alpha_restore_eq). Qed.
 Print Assumptions C01_regenerated_alpha_codec.
 Theorem C01_constructors_build_empty_trees : forall c f,
